@@ -422,14 +422,21 @@ def run(ctx):
                 if tried > 400:
                     break
                 tried += 1
-                for fill in (0xFF, 0x00):
+                for fill in (0xFF, 0x00, 0x01, 0x02, 0x03, 0x04, 0x05):      # also: the containing byte / word equals a small raw value that gets written
                     blk = bytes([fill]) * 1024
+                    if fill not in (0xFF, 0x00):
+                        blk = bytes(1024)[:it["pos"]] + (bytes([fill]) if it["length"] == 1 else bytes([0, fill])) + bytes(1024)[it["pos"] + it["length"]:]
                     for v in [x for x in domain(rng, it["type"], it["items"], it["length"], False) if x != "__absent__"][:4]:
                         rec = Rec()
                         st, a = build("sync", rec, (it["type"], it["pos"], it["bitpos"], it["items"], it["size"], it["maxitems"], it["rw"]), blk)
                         w = drive(st, a, "sync", py_value_arg(it["type"], v), rec)
                         nb = apply_write(blk, w) if w is not None else None
                         if nb is None:
+                            # no device write at all: fine only if the item already reads as the requested value
+                            cur = real_value(it, blk)
+                            if w is None and it["type"] in ("Enum", "Bool") and cur != (v if it["type"] == "Enum" else (v in (True, "True", "true", 1))) and (it["type"] != "Enum" or isinstance(v, str)):
+                                ctx.fail("readback:%s:%s" % (m["stem"], it["tag"]), "writing %s = %r emits no device write although the item reads %r (containing byte(s) %r)" % (
+                                    it["tag"], v, cur, list(blk[it["pos"]:it["pos"] + it["length"]])), {"module": m["stem"], "item": it["tag"], "value": v, "reads": cur, "bytes": list(blk[it["pos"]:it["pos"] + it["length"]])})
                             continue
                         mine = declared_bits(it)
                         for other in d.get(it["pos"], []) + (d.get(it["pos"] + 1, []) if it["length"] == 2 else []):
